@@ -9,6 +9,25 @@ COMMON_ASSUME = [
 ]
 
 PROPS = {
+  'C18': {
+    'rule': 'cases = (well-nested task program of up to 200 (quick) / 5000 (thorough) operations from the grammar task ::= (section|other)* end; section ::= (create(task)|section|other)* wait, generated busy-work per interval, serial simulation of a work-stealing run on W in 1..8 virtual workers with generated start/resume workers, generated contraction options (collapse_max, uncollapse_min, collapse_max_count, node_count_target/prune_threshold, chk_level), 1..50 file names); '
+            'non-trivial = the dumped DAG has fewer materialised nodes than logical nodes (something was contracted) AND intervals of >= 2 workers; distinct = hash of (program bytes, W)',
+    'assumptions': ['clocks are real rdtsc readings: work and critical path are compared within each run against the values the hooks saw, never across runs', 'edge totals of the uncontracted DAG are defined as create = create_cont = end = #create intervals, wait_cont = #wait intervals, other_cont = #other intervals', 'the simulator is serial: a child task runs to completion before its parent continues (any such execution is a legal schedule)'],
+    'stages': [
+      {'kind': 'replays', 'name': 'replay', 'variant': 'v0'},
+      {'kind': 'pbt', 'name': 'dag-totals-v0', 'variant': 'v0', 'prop': 18, 'cases': (1200, 20000), 'prog_max': 700, 'sched_max': 0},
+      {'kind': 'pbt', 'name': 'dag-totals-asan', 'variant': 'va', 'prop': 18, 'cases': (300, 6000), 'prog_max': 700, 'sched_max': 0},
+    ],
+  },
+  'C19': {
+    'rule': 'cases = as C18, plus generated conversion-time contraction options; non-trivial = something was contracted at record time or by the shrinking conversion AND >= 2 workers; distinct = hash of (program bytes, W)',
+    'assumptions': ['struct layouts are taken from dag_recorder_impl.h; the validation logic is independent of the dump / read code'],
+    'stages': [
+      {'kind': 'replays', 'name': 'replay', 'variant': 'v0'},
+      {'kind': 'pbt', 'name': 'dag-files-v0', 'variant': 'v0', 'prop': 19, 'cases': (1000, 16000), 'prog_max': 700, 'sched_max': 0},
+      {'kind': 'pbt', 'name': 'dag-files-asan', 'variant': 'va', 'prop': 19, 'cases': (250, 5000), 'prog_max': 700, 'sched_max': 0},
+    ],
+  },
   'C15': {
     'rule': 'fuzz stage: libFuzzer over MYTH_CPU_LIST strings (bytes without NUL) differential against an independent parser of the documented range grammar; non-trivial = well-formed list with >= 2 ranges one of them a-b, or an ill-formed string containing digits; '
             'environment stage: generated maps over the six configuration variables (unset, empty, clean, zero, negative, junk, integer+junk, whitespace, control characters, list-grammar mutations), implicit or explicit init; non-trivial = at least one variable holds a malformed value; '
